@@ -135,7 +135,7 @@ CLAIM = {
             "prices and a reaction order placed from a fill hook; results are compared with the continuous-path "
             "reference (O-L-H-C / O-H-L-C). Because the code only compares/copies prices, the ordering determines "
             "behaviour on all real inputs, so this decides the clause for every candle and price arrangement. "
-            "Not decided: more than 3 simultaneous resting orders plus cascaded reactions (k>3), fast-mode multi-candle sorting.",
+            "Not decided: more than 3 simultaneous resting orders plus cascaded reactions (k>3), fast-mode multi-candle sorting. Every ordering is also witnessed with all levels a tick apart (tolerance comparisons must not replace exact ones); one-for-one order replacement from a fill hook.",
     "note": "Trusted: the interpreter implements CPython semantics for the subset used; hooks/ledgers are abstract sinks; "
             "reaction orders are modelled as one LIMIT order inserted via OrdersState.add_order at a fill.",
 }
